@@ -1,8 +1,10 @@
 import Driver.Util
 import NixModel.Pure.Tree
 import NixModel.Pure.TreeShape
+import NixModel.Pure.TreeIds
 import NixModel.Generated.FindShape
-open Lean Nix Nix.Tree Nix.Tree.Shape Nix.Generated
+import NixModel.Generated.IdLookup
+open Lean Nix Nix.Tree Nix.Tree.Shape Nix.Tree.Ids Nix.Generated
 
 namespace Driver.C13
 
@@ -59,7 +61,10 @@ def exceptKey (r : Except Err (Option Nat)) : Json :=
   | .ok v => ok (jOptKey v)
   | .error e => err e
 
-def handle (f : File) (j : Json) : File × Json :=
+/-- `texts`: the id text stored for every key (supplied ones as `Section.create_new` stores them, the others a
+library-made text); `Section.parent` / `Source.parent_source` compare these, through the look-up chain as extracted
+(`Generated/IdLookup.lean`, interpreted by `Pure/TreeIds.lean`) -/
+def handle (texts : Nat → String) (f : File) (j : Json) : File × Json :=
   match (jArr j).toList with
   | [Json.str "reset"] => ({}, ok Json.null)
   | [Json.str "create_block", Json.str n, Json.str t] =>
@@ -132,8 +137,8 @@ def handle (f : File) (j : Json) : File × Json :=
     | none => (f, bad "C13: parent")
     | some k =>
       match via with
-      | Json.str "cached" => (f, exceptKey (sectionParentG FindShape.sectionParent f k true))
-      | Json.str "fresh" => (f, exceptKey (sectionParentG FindShape.sectionParent f k false))
+      | Json.str "cached" => (f, exceptKey (sectionParentT FindShape.sectionParent IdLookup.shape texts f k true))
+      | Json.str "fresh" => (f, exceptKey (sectionParentT FindShape.sectionParent IdLookup.shape texts f k false))
       | _ =>
         -- ["md", e]: the handle is `e.metadata`
         match (jArr via).toList with
@@ -146,20 +151,20 @@ def handle (f : File) (j : Json) : File × Json :=
               | some (.hold _ h) => some h.md
               | some (.src _ n) => some n.md
               | _ => none
-            if md == some (some k) then (f, exceptKey (sectionParentG FindShape.sectionParent f k false)) else (f, err .keyError)
+            if md == some (some k) then (f, exceptKey (sectionParentT FindShape.sectionParent IdLookup.shape texts f k false)) else (f, err .keyError)
         | _ => (f, bad "C13: parent via")
   | [Json.str "parent_source", k, via] =>
     match jNat? k with
     | none => (f, bad "C13: parent_source")
     | some k =>
       match via with
-      | Json.str "fresh" => (f, exceptKey (sourceParentG FindShape.sourceParent f k))
+      | Json.str "fresh" => (f, exceptKey (sourceParentT FindShape.sourceParent IdLookup.shape texts f k))
       | _ =>
         match (jArr via).toList with
         | [Json.str "link", h] =>
           match (jNat? h).bind f.lookup with
           | some (.hold _ h) =>
-            if h.srcs.contains k then (f, exceptKey (sourceParentG FindShape.sourceParent f k)) else (f, err .keyError)
+            if h.srcs.contains k then (f, exceptKey (sourceParentT FindShape.sourceParent IdLookup.shape texts f k)) else (f, err .keyError)
           | _ => (f, err .keyError)
         | _ => (f, bad "C13: parent_source via")
   | [Json.str "parent_block", k, via] =>
@@ -226,7 +231,7 @@ def viaOk (f : File) (k : Nat) (via : Json) : Option Bool :=
     | _ => none
 
 /-- queries through a handle reached by a link: the answer does not depend on the handle, the link has to exist -/
-def handleV (f : File) (j0 : Json) : File × Json :=
+def handleV (texts : Nat → String) (f : File) (j0 : Json) : File × Json :=
   -- `"found"`: the handle is an element of a `find_sections()` / `find_sources()` result — as good as re-fetched
   let j := Json.arr ((jArr j0).map fun x => match x with
     | Json.str "found" => Json.str "fresh"
@@ -236,18 +241,15 @@ def handleV (f : File) (j0 : Json) : File × Json :=
     | none => (f, bad "C13: key")
     | some k =>
       match viaOk f k via with
-      | some true => handle f plain
+      | some true => handle texts f plain
       | some false => (f, err .keyError)
       | none => (f, bad "C13: via")
   match (jArr j).toList with
-  -- the caller supplies the id (`oid=`): stored as given when `util.is_uuid` accepts it; entities are addressed by
-  -- creation counter here, so the text plays no role at this level
-  | [Json.str "create_section", p, n, t, Json.str _oid] => handle f (Json.arr #[Json.str "create_section", p, n, t])
   | [Json.str "find", root, filt, limit, via] => thru root via (Json.arr #[Json.str "find", root, filt, limit])
   | [Json.str "referring", k, what, via] => thru k via (Json.arr #[Json.str "referring", k, what])
   | [Json.str "find_related", k, via, filt] =>
     match via with
-    | Json.str _ => handle f j
+    | Json.str _ => handle texts f j
     | _ => thru k via (Json.arr #[Json.str "find_related", k, Json.str "fresh", filt])
   -- `section.link = other` / `= None`: stored, but no search, parent or referring list looks at it
   | [Json.str "set_link", k, target] =>
@@ -258,8 +260,39 @@ def handleV (f : File) (j0 : Json) : File × Json :=
       match (jNat? target).bind (fun k => findL? k f.sections) with
       | none => (f, err .keyError)
       | some _ => (f, ok Json.null)
-  | _ => handle f j
+  | _ => handle texts f j
 
-def main : IO Unit := loop ({} : File) handleV
+/-- the file and the id texts the caller supplied (`create_section(…, oid=…)`), by key -/
+structure St where
+  f : File := {}
+  given : List (Nat × String) := []
+
+/-- stand-in for a library-made id (`str(uuid4())`: lower case, hyphenated) -/
+def genText (k : Nat) : String :=
+  let ds := Nat.toDigits 16 k
+  "00000000-0000-4000-8000-" ++ String.ofList (List.replicate (12 - ds.length) '0' ++ ds)
+
+def handleS (s : St) (j : Json) : St × Json :=
+  let texts := textsOf s.given genText
+  match (jArr j).toList with
+  | [Json.str "reset"] => ({}, ok Json.null)
+  -- `str(uuid.UUID(text))` as `Pure/TreeIds.lean` has it (pinned against CPython)
+  | [Json.str "canon", Json.str t] =>
+    (s, match canonText? t with
+        | some c => ok (Json.str c)
+        | none => err .valueError)
+  -- the caller supplies the id (`oid=`): what `Section.create_new` stores for it (as extracted), if anything
+  | [Json.str "create_section", p, n, t, Json.str oid] =>
+    let (f', r) := handleV texts s.f (Json.arr #[Json.str "create_section", p, n, t])
+    if f'.next == s.f.next + 1 then
+      match storedId IdLookup.shape oid with
+      | some tx => ({ f := f', given := (s.f.next, tx) :: s.given }, r)
+      | none => ({ s with f := f' }, r)
+    else ({ s with f := f' }, r)
+  | _ =>
+    let (f', r) := handleV texts s.f j
+    ({ s with f := f' }, r)
+
+def main : IO Unit := loop ({} : St) handleS
 
 end Driver.C13
